@@ -176,7 +176,10 @@ def compare_ep(case, ep, rel, res1, res2, box1, box2, pads, atol_free, amp=1.0, 
     mech0 = {'entry': ep.name, 'relation': rel}
     dx, dy = (pads[0], pads[2]) if rel == 'translate' else (0, 0)
     npos = 0
-    k1, k2 = set(out1), set(out2)
+    if opts is not None and opts.get('moved') is not None:
+        mech0['moved'] = opts['moved']
+        case.note(f"moved_object:{ep.name}:{opts['moved']}")
+    k1, k2 = set(out1) - {'_asserts'}, set(out2) - {'_asserts'}
     if not case.check(k1 == k2, 'outputs_present', dict(mech0, output='*'),
                       only_base=sorted(k1 - k2), only_related=sorted(k2 - k1)):
         return 0
@@ -198,6 +201,15 @@ def compare_ep(case, ep, rel, res1, res2, box1, box2, pads, atol_free, amp=1.0, 
         if name == '_notes':
             for nk, nv in out1[name].items():
                 case.note(f'fallback:{ep.name}:{nk}', nv)
+            continue
+        if name == '_asserts':
+            # within-leg history assertions handed over by the adapter (obs, exp on the same scene)
+            for an, akind, aobs, aexp in out1[name]:
+                am = dict(mech0, output=an)
+                if ep.mech_fn is not None:
+                    am.update(ep.mech_fn(opts, an, out1))
+                epm.compare(case, 'covariant', am, akind, epm.canon(akind, aobs)[0], epm.canon(akind, aexp)[0],
+                            FREE_RTOL, atol_free, ANG_ATOL_DEG)
             continue
         if k.kind == 'skip':
             continue
@@ -295,6 +307,13 @@ def build_case(case):
     scene = gen.make_scene(rng, flavour=flav, nonfinite=nonfinite, nsrc=nsrc, hostile=hostile)
     for ep in eps:
         scene['opts'][ep.name] = ep.prepare(rng, scene)
+        if ep.name in ('aperture_photometry', 'ApertureStats') and rel == 'translate':
+            # 'same object moved': the aperture objects that measured the original scene are moved (+=, -=, plain
+            # re-assignment) and measure the embedded scene; the covariance demanded is the same as for fresh objects
+            md_ = scene['opts'][ep.name].get('moved_draw')
+            if md_ is not None:
+                scene['opts'][ep.name]['moved'] = md_
+                scene['opts'][ep.name]['holder'] = epm.Holder()
         if ep.name == 'PSFPhotometry':
             # IterativePSFPhotometry (used by C15) re-detects sources in the residual image: those faint second-pass
             # fits have position errors of 1-3 px and amplify the fit noise beyond any useful tolerance
